@@ -209,6 +209,8 @@ class World:
 
     def consistent(self) -> bool:
         seen = {}
+        if FALSE in self.facts:
+            return False
         for f in self.facts:
             if f[0] == "lit":
                 if seen.setdefault(f[1], f[2]) != f[2]:
